@@ -80,7 +80,33 @@ def state_invariant(case, codes):
     return pre
 
 
-def run_case(E, case, PROP):
+def _state_arrays(gb):
+    """every array the grouping object retains after the call (key codes, pointer tables, caches), by attribute name"""
+    from ..models import FakeChunked
+    out = []
+
+    def walk(x, name):
+        if isinstance(x, A):
+            out.append((name, x))
+        elif isinstance(x, FakeSeries):
+            walk(x.arr, name)
+        elif isinstance(x, FakeChunked):
+            for ch in x.chunks:
+                walk(ch, name)
+        elif isinstance(x, (list, tuple)):
+            for y in x:
+                walk(y, name)
+        elif isinstance(x, dict):
+            for y in x.values():
+                walk(y, name)
+    for k, v in vars(gb).items():
+        walk(v, k)
+    return out
+
+
+def run_case(E, case, PROP, mode="values"):
+    """mode 'values': labels and numbers (C01); mode 'alias': the returned object shares no buffer with a caller array or with
+    anything the grouping retains - otherwise editing the result changes the input or a later identical call (C19)"""
     t0 = time.time()
     inp = Inputs()
     d = R.build(case, inp)
@@ -99,25 +125,48 @@ def run_case(E, case, PROP):
         kw = dict(mask=arrs["mask"], observed_only=case["observed_only"])
         try:
             if f == "size":
-                return "ok", gb.size(**kw)
+                return "ok", gb.size(**kw), gb
             vals = arrs["values"]
             if ncols == 2:
                 vals = [vals, A(d["values2"], dt).tag("input:values")]
-            return "ok", getattr(gb, f)(vals, **kw)
+            return "ok", getattr(gb, f)(vals, **kw), gb
         except (Unsupported, OutsideModel):
             raise
         except Exception as e:      # noqa: BLE001 - the code under test raised on a valid state
-            return "raised", f"{type(e).__name__}: {e}"
+            from ..runtime import _model_gap
+            gap = _model_gap(e)
+            if gap:
+                raise Unsupported(f"model gap: {gap}") from e
+            return "raised", f"{type(e).__name__}: {e}", gb
     paths = run_paths(body)
     rows = R.selected_rows(case, d)
     bads = []
-    for pc, (status, out), rt in paths:
+    for pc, (status, out, gb_), rt in paths:
         pcz = b_and(*pc) if pc else True
         for kind, g_, c_, where in rt.obligations:
+            if mode == "alias" and kind != "input_write":
+                continue
             merged.obligations.append((kind, b_and(pcz, g_), c_, where))
         merged.pre.extend(rt.pre)
         if status == "raised":
-            bads.append((f"raises {out[:120]}", pcz))
+            if mode == "values":
+                bads.append((f"raises {out[:120]}", pcz))
+            continue
+        if mode == "alias":
+            res_arrs = []
+            if isinstance(out, FakeFrame):
+                res_arrs = [out[c].arr for c in out.columns]
+            elif isinstance(out, FakeSeries):
+                res_arrs = [out.arr]
+            retained = _state_arrays(gb_)
+            for ra in res_arrs:
+                if not isinstance(ra, A):
+                    continue
+                if ra.st.origin is not None:
+                    bads.append((f"result aliases caller-owned storage ({ra.st.origin})", pcz))
+                for name, sa in retained:
+                    if sa.st is ra.st:
+                        bads.append((f"result shares its buffer with the grouping's retained {name}: editing it changes later calls", pcz))
             continue
         cols = []
         if isinstance(out, FakeFrame):
@@ -177,7 +226,11 @@ def run_case(E, case, PROP):
          "obligations": dec.obligations, "failed_obligations": dec.failed_obligations, "witnesses": dec.witnesses, "candidates": [],
          "encoded": sorted(E.encoded), "paths": len(paths)}
     numeric = all(isinstance(x, (int, float)) for x in labels)
+    if mode == "alias":
+        sig_prefix = f"{PROP}:result_alias:{f}:{case['state']}:observed_only={case['observed_only']}:mask={case['mask']['kind'] != 'none'}"
     sig = f"{PROP}:assembly:{f}:{case['state']}:labels={'numeric' if numeric else 'text'}:{'sorted' if labels == sorted(labels) else 'unsorted'}:mask={case['mask']['kind'] != 'none'}:observed_only={case['observed_only']}"
+    if mode == "alias":
+        sig = sig_prefix
     if dec.verdict == "sat" and not any(k_ == "bounds" for k_, w_ in dec.failed_obligations):
         r["candidates"].append({"signature": sig, "case": case, "inputs": jsonable(dec.model), "kind": "property", "labels": dec.which[:4]})
     if dec.failed_obligations:
@@ -273,3 +326,59 @@ def replay(case, conc, cand=None):
     except Exception as e:      # noqa: BLE001
         problems.append(f"GroupBy(keys): real call raised {type(e).__name__}: {e}")
     return bool(problems), {"problems": problems[:6], "codes": codes, "labels": labels, "inputs": jsonable(conc)}
+
+
+def replay_alias(case, conc, cand=None):
+    """public constructor; call, edit the returned object in place, call again: the second result must equal a fresh grouping's,
+    and the caller's arrays must be unchanged"""
+    import pandas as pd
+    from groupby_lib import GroupBy
+    conc = fix_nans(conc)
+    G, N, f = case["G"], case["N"], case["func"]
+    dt = real_np.dtype(case["dtype"])
+    labels = case["labels"]
+    codes = [int(x) for x in conc["k"]]
+    mask = real_np.array(conc["m"], dtype=bool) if "m" in conc else None
+    ncols = case.get("ncols", 1)
+    cols = []
+    if f != "size":
+        cols.append(R.np_values(R.to_float_cells(conc["v"]), dt))
+        if ncols == 2:
+            cols.append(R.np_values(R.to_float_cells(conc["w"]), dt))
+
+    def keys():
+        if case["state"] == "categorical":
+            return pd.Categorical.from_codes(codes, categories=labels)
+        if all(isinstance(x, (int, float)) for x in labels):
+            return real_np.array([float(labels[c]) if c >= 0 else float("nan") for c in codes])
+        return real_np.array([labels[c] if c >= 0 else None for c in codes], dtype=object)
+    kw = dict(mask=mask, observed_only=case["observed_only"])
+
+    def call(gb):
+        return gb.size(**kw) if f == "size" else getattr(gb, f)(cols if ncols == 2 else cols[0], **kw)
+    problems = []
+    try:
+        before = [c.copy() for c in cols] + ([mask.copy()] if mask is not None else [])
+        gb = GroupBy(keys())
+        call(gb)                      # warm caches the way a reused grouping has them
+        r1 = call(gb)
+        if len(r1):
+            try:
+                if isinstance(r1, pd.Series):
+                    r1.iloc[0] = 12345
+                else:
+                    r1.iloc[0, 0] = 12345
+            except Exception:      # noqa: BLE001 - read-only results cannot leak edits
+                pass
+        r2 = call(gb)
+        r3 = call(GroupBy(keys()))
+        a2, a3 = real_np.asarray(r2, dtype=float), real_np.asarray(r3, dtype=float)
+        if a2.shape != a3.shape or not real_np.array_equal(a2, a3, equal_nan=True) or list(r2.index) != list(r3.index):
+            problems.append(f"after editing the first result the same call returns {a2.tolist()} instead of {a3.tolist()}")
+        after = cols + ([mask] if mask is not None else [])
+        for b0, a0 in zip(before, after):
+            if not real_np.array_equal(b0, a0, equal_nan=b0.dtype.kind == "f"):
+                problems.append("a caller array changed")
+    except Exception as e:      # noqa: BLE001
+        problems.append(f"real call raised {type(e).__name__}: {e}")
+    return bool(problems), {"problems": problems[:4], "codes": codes, "labels": labels, "inputs": jsonable(conc)}
